@@ -80,7 +80,13 @@ type stickyPair struct {
 func auxiliaryPairs(p *Prog) []stickyPair {
 	var out []stickyPair
 	for _, fn := range p.FuncsIn("") {
-		if fn.Parent() != nil || fn.Signature.Results().Len() == 0 || !isFrameType(fn.Signature.Results().At(0).Type()) {
+		if fn.Parent() != nil || fn.Signature.Results().Len() == 0 {
+			continue
+		}
+		res := fn.Signature.Results()
+		// helpers that hand back a frame, and helpers that report through an error result (a lookup helper of the
+		// view constructors: under an errored frame its error is non-nil)
+		if !isFrameType(res.At(0).Type()) && !isErrorType(res.At(res.Len()-1).Type()) {
 			continue
 		}
 		for i, prm := range fn.Params {
@@ -202,6 +208,9 @@ func stickyAnalyse(p *Prog, res *callResolver, pr stickyPair, passing map[sticky
 				}
 				return n > 0 && whole
 			case *ssa.Extract:
+				if isErrorType(t.Type()) {
+					return errored[t.Tuple] // the error result of an operation applied to an errored frame
+				}
 				return t.Index == 0 && errored[t.Tuple] && isFrameType(t.Type())
 			case *ssa.Call:
 				if o := calleeObj(t); o != nil && p.isErrSetter(o) {
@@ -381,6 +390,14 @@ func errValueIncoming(v ssa.Value, errored map[ssa.Value]bool) bool {
 
 // errValueNonNil: v is the Err of an errored frame, or a freshly constructed error.
 func errValueNonNil(v ssa.Value, errored map[ssa.Value]bool) bool {
+	if errored[v] && isErrorType(v.Type()) {
+		if _, isCall := v.(*ssa.Call); isCall {
+			return true
+		}
+		if _, isEx := v.(*ssa.Extract); isEx {
+			return true
+		}
+	}
 	if fld, x := fieldOf(v); fld != nil && fld.Name() == "Err" {
 		if errored[x] {
 			return true
